@@ -21,13 +21,13 @@ def _child(task, build):
             fr.obligations = [o for o in fr.obligations if o.expect != 'unsat' or any(o.meta['kind'].startswith(k) for k in kinds)]
         om = cex.make_on_model(fr.params, fr.pre_heap)
         res = smt.discharge(fr.obligations, timeout=opts['timeout'], seed=opts['seed'], on_model=om, retry_timeout=opts['retry'],
-                            procs=opts['procs'], use_cvc5=opts.get('cvc5', True))
+                            procs=opts['procs'], use_cvc5=opts.get('cvc5', True), want_hash=opts.get('want_hash', False))
         mod = q.rsplit('.', 1)[0]
         while mod not in prog.sha and '.' in mod:
             mod = mod.rsplit('.', 1)[0]
         return {'q': q, 'degraded': fr.degraded, 'paths': fr.paths, 'assumptions': sorted(fr.assumptions), 'sha256': prog.sha.get(mod, ''),
                 'obligations': [{'id': o.id, 'expect': o.expect, 'meta': o.meta, 'hyps': len(o.hyps), 'verdict': r.verdict, 'backend': r.backend,
-                                 'secs': r.secs, 'reason': r.reason, 'model': r.model} for o, r in zip(fr.obligations, res)]}
+                                 'secs': r.secs, 'reason': r.reason, 'model': r.model, 'rl': r.rl, 'h': r.h} for o, r in zip(fr.obligations, res)]}
     except BaseException:
         return {'q': q, 'error': traceback.format_exc()}
 
